@@ -599,6 +599,26 @@ impl Wallet {
 		hash64(&self.db_dump(scratch))
 	}
 
+	/// (relative name, content) of the stored-transaction files and top-level files
+	pub fn files_list(&self) -> Vec<(String, Vec<u8>)> {
+		let mut v: Vec<(String, Vec<u8>)> = vec![];
+		let d = format!("{}/saved_txs", self.data_dir());
+		if let Ok(rd) = std::fs::read_dir(&d) {
+			for e in rd.flatten() {
+				v.push((format!("saved_txs/{}", e.file_name().to_string_lossy()), std::fs::read(e.path()).unwrap_or_default()));
+			}
+		}
+		if let Ok(rd) = std::fs::read_dir(self.data_dir()) {
+			for e in rd.flatten() {
+				if e.path().is_file() {
+					v.push((e.file_name().to_string_lossy().to_string(), std::fs::read(e.path()).unwrap_or_default()));
+				}
+			}
+		}
+		v.sort();
+		v
+	}
+
 	/// digest of the stored-transaction directory and seed file
 	pub fn files_digest(&self) -> u64 {
 		let mut v: Vec<(String, Vec<u8>)> = vec![];
